@@ -197,7 +197,14 @@ def ipFields : List IpField := [
   ⟨"allowed_ranges_v4", "key", "ip", .wire, .wire⟩,
   ⟨"eim_table", "key", "internal_ip", .host, .wire⟩,
   ⟨"nat_sessions", "key", "src_ip", .host, .wire⟩,
-  ⟨"nat_sessions", "key", "dst_ip", .host, .wire⟩]
+  ⟨"nat_sessions", "key", "dst_ip", .host, .wire⟩,
+  -- values the PROGRAM writes and Go reads back (LookupSession / GetEIMMapping): `c` = the order of the bytes
+  -- the program stores.  nat_ip / external_ip are raw copies of subscriber_nat.block.public_ip, i.e. of the
+  -- host-order integer Go wrote there; orig_ip / dest_ip are raw copies of ip->saddr / ip->daddr.
+  ⟨"nat_sessions", "value", "nat_ip", .host, .host⟩,
+  ⟨"nat_sessions", "value", "orig_ip", .host, .wire⟩,
+  ⟨"nat_sessions", "value", "dest_ip", .host, .wire⟩,
+  ⟨"eim_table", "value", "external_ip", .host, .host⟩]
 
 /-- finding D10 = the leaves on which the two conventions differ.  The byte-level check attributes a
     `byteorder` verdict to D10 only for these tuples (and only when the bytes are exactly reversed). -/
@@ -226,14 +233,61 @@ def wireC (m side leaf : String) (v : List B) : List B :=
   | some ⟨_, _, _, _, .host⟩ => v.reverse
   | _ => v
 
-/-- (map, side, leaf) tuples holding a transport port that the NAT program stores in network order while the
-    Go lookup API marshals the logical port number (finding KF-C06-port-order) -/
-def portOrderFields : List (String × String × String) := [
-  ("eim_table", "key", "internal_port"),
-  ("nat_sessions", "key", "src_port"),
-  ("nat_sessions", "key", "dst_port")]
+structure PortField where
+  map : String
+  side : String
+  leaf : String
+  /-- how Go marshals / interprets the 16 bits: always the logical number (host order) today -/
+  go : Ord
+  /-- what the program stores: `wire` = the header bytes (`tcp->source`, `bpf_htons(port)`), `host` = the number -/
+  c : Ord
+deriving DecidableEq, Repr
 
+/-- EVERY transport-port leaf of a map shared by the two sides (keys Go looks up with, values Go reads back) -/
+def portFields : List PortField := [
+  ⟨"eim_table", "key", "internal_port", .host, .wire⟩,
+  ⟨"nat_sessions", "key", "src_port", .host, .wire⟩,
+  ⟨"nat_sessions", "key", "dst_port", .host, .wire⟩,
+  ⟨"nat_sessions", "value", "nat_port", .host, .wire⟩,    -- `.nat_port = bpf_htons(alloc_port)`
+  ⟨"nat_sessions", "value", "orig_port", .host, .wire⟩,   -- `.orig_port = src_port` (raw tcp->source)
+  ⟨"nat_sessions", "value", "dest_port", .host, .wire⟩,   -- `.dest_port = dst_port`
+  ⟨"eim_table", "value", "external_port", .host, .host⟩,  -- `.external_port = ext_port` (allocator's number)
+  ⟨"subscriber_nat", "value", "block.port_start", .host, .host⟩,
+  ⟨"subscriber_nat", "value", "block.port_end", .host, .host⟩,
+  ⟨"alg_ports", "value", "port", .host, .host⟩,
+  ⟨"nat_config_map", "value", "port_range_start", .host, .host⟩,
+  ⟨"nat_config_map", "value", "port_range_end", .host, .host⟩]
+
+/-- every OTHER 4-byte / 2-byte integer data leaf of the shared records: plain host-order integers on both sides
+    (ids, indices, counters, flags, lengths, the 12-bit VLAN ids).  `ip_pools.value.network` IS an address, written
+    by Go in host order, but no program reads it.  Spec.C06.convention_tables_cover_all_u32_u16_leaves proves that
+    `ipFields ∪ portFields ∪ plainLeaves` is every such leaf, so a new one cannot go unclassified. -/
+def plainLeaves : List (String × String × String) := [
+  ("antispoof_config", "key", ""), ("antispoof_stats", "key", ""), ("stats_map", "key", ""), ("ip_pools", "key", ""),
+  ("server_config", "key", ""), ("alg_ports", "key", ""), ("nat_config_map", "key", ""), ("nat_stats_map", "key", ""),
+  ("qos_stats_map", "key", ""),
+  ("allowed_ranges_v4", "key", "prefixlen"),
+  ("vlan_subscriber_pools", "key", "s_tag"), ("vlan_subscriber_pools", "key", "c_tag"),
+  ("subscriber_pools", "value", "pool_id"), ("subscriber_pools", "value", "vlan_id"),
+  ("vlan_subscriber_pools", "value", "pool_id"), ("vlan_subscriber_pools", "value", "vlan_id"),
+  ("circuit_id_subscribers", "value", "pool_id"), ("circuit_id_subscribers", "value", "vlan_id"),
+  ("ip_pools", "value", "network"), ("ip_pools", "value", "lease_time"),
+  ("server_config", "value", "interface_index"),
+  ("subscriber_nat", "value", "block.next_port"), ("subscriber_nat", "value", "block.ports_in_use"),
+  ("subscriber_nat", "value", "block.subscriber_id"),
+  ("alg_ports", "value", "flags"), ("nat_config_map", "value", "flags"),
+  ("nat_config_map", "value", "default_ports_per_sub"),
+  ("eim_table", "value", "ref_count"), ("eim_table", "value", "flags"),
+  ("qos_egress", "value", "burst_bytes"), ("qos_ingress", "value", "burst_bytes")]
+
+/-- finding KF-C06-port-order = the port leaves on which the two conventions differ -/
+def portOrderFields : List (String × String × String) :=
+  (portFields.filter fun f => f.go != f.c).map fun f => (f.map, f.side, f.leaf)
+
+/-- the two bytes the program that owns `(m, side, leaf)` stores for port `p` -/
 def portC (m side leaf : String) (p : Nat) : List B :=
-  if portOrderFields.contains (m, side, leaf) then portFieldC p else portFieldGo p
+  match portFields.find? fun f => f.map == m && f.side == side && f.leaf == leaf with
+  | some ⟨_, _, _, _, .host⟩ => portFieldGo p
+  | _ => portFieldC p
 
 end Bng.KeyEnc
